@@ -1,4 +1,5 @@
 import TracklibVerif.Model.SimplifyTrack
+import TracklibVerif.Model.SimplifyTie
 import TracklibVerif.Drv.Util
 /-! Driver handler for C16 (simplification), `Float` instantiation (`sqrt = Float.sqrt`, ARGMIN sentinel
 `+inf`, the code's `float('inf')` since 68863c7). Floats are IEEE bit patterns. Commands:
@@ -6,6 +7,9 @@ import TracklibVerif.Drv.Util
                                   reachable with another choice among equally far fixes (`;`-separated),
                                   or `err:recursion` when the recursion does not terminate
   vw <eps> <xs> <ys>            → kept indices
+  vwall <eps> <xs> <ys> <cap>   → kept indices of the code's own run, then ` ` and every output reachable with another choice among
+                                  equally small triangles (`visvalingamAll`, `;`-separated; `Model/SimplifyTie.lean`), or `toomany`
+                                  when a level of the enumeration holds more than `cap` states
   dist <x0> <y0> <x1> <y1> <x2> <y2>  → distance_to_segment
   area <x0> <y0> <x1> <y1> <x2> <y2>  → triangle_area
   distq <6 rationals>           → exact squared distance to the closed segment (`distSegSq` on `Rat`)
@@ -20,6 +24,10 @@ import TracklibVerif.Drv.Util
   net <mode> <eps> <k> then k × (<xs> <ys> <uid> <tid> <base|_> <names> <cols> <rows> <no_data_value|_>)
                                 → `Network.simplify(eps, mode)` on a network whose k edges have these geometries (`netSimplify`):
                                   the k replies of `trkn` separated by ` | `, or the first error
+  coll <mode|_> <eps> <k> then k × (<xs> <ys> <uid> <tid> <base|_> <names> <cols> <rows> <no_data_value|_>)
+                                → `TrackCollection(tracks).simplify(eps, mode)` (`collSimplify`; mode `_` = the argument is not
+                                  given: the default `mode=1`): the k replies of `trkn` separated by ` | `, `_` for an empty
+                                  collection, or the first error
   mode <int>                    → which algorithm `simplify` dispatches to -/
 namespace TV.Drv.C16
 open TV.Simplify TV.Drv
@@ -121,9 +129,29 @@ def handleNet (args : List String) : String :=
     | _, _, _ => "bad-request"
   | _ => "bad-request"
 
+def handleColl (args : List String) : String :=
+  match args with
+  | m :: e :: k :: rest =>
+    let mode? : Option (Option Int) := if m == "_" then some none else m.toInt?.map some
+    match mode?, float? e, k.toNat? with
+    | some mode, some eps, some k =>
+      if rest.length != 9 * k then "bad-request" else
+      match parseGeoms k rest with
+      | some C =>
+        let r := match mode with
+          | none => collSimplify Float.sqrt big C eps          -- `collection.simplify(eps)`: the default mode
+          | some m => collSimplify Float.sqrt big C eps m
+        match r with
+        | .ok O => if O.isEmpty then "_" else " | ".intercalate (O.map showTrkN)
+        | .error e => showErr e
+      | none => "bad-request"
+    | _, _, _ => "bad-request"
+  | _ => "bad-request"
+
 def handle (cmd : String) (args : List String) : String :=
   match cmd, args with
   | "trk", _ => handleTrk args
+  | "coll", _ => handleColl args
   | "trkn", _ => handleTrkN args
   | "net", _ => handleNet args
   | "mode", [m] =>
@@ -145,6 +173,16 @@ def handle (cmd : String) (args : List String) : String :=
       if xs.length != ys.length || xs.isEmpty then "bad-request" else
       showIdx (visvalingam big eps (mkTrack xs ys))
     | _, _, _ => "bad-request"
+  | "vwall", [e, xs, ys, cap] =>
+    match float? e, floatList? xs, floatList? ys, cap.toNat? with
+    | some eps, some xs, some ys, some cap =>
+      if xs.length != ys.length || xs.isEmpty then "bad-request" else
+      let L := mkTrack xs ys
+      showIdx (visvalingam big eps L) ++ " " ++
+        (match visvalingamAll big eps cap L with
+         | some R => joinWith ";" (R.map showIdx)
+         | none => "toomany")
+    | _, _, _, _ => "bad-request"
   | "dist", _ =>
     match args.mapM float? with
     | some [x0, y0, x1, y1, x2, y2] => showFloat (distanceToSegment Float.sqrt x0 y0 x1 y1 x2 y2)
